@@ -5,6 +5,7 @@ import NodisVerif.Proofs.C03
 import NodisVerif.Proofs.C03Api
 import NodisVerif.Proofs.C03Seq
 import NodisVerif.Proofs.C03Refine
+import NodisVerif.Proofs.C03Oids
 /-
   C03 — hashes and sets behave as exact maps and mathematical sets.
 
@@ -22,6 +23,7 @@ open Spec
 open NodisVerif.Proofs
 open NodisVerif.Proofs.C03Api (Hot Absent IndexSorted Classified den invalidChoice)
 open NodisVerif.Proofs.C03Seq (HashRel SetRel hmsetDs)
+open NodisVerif.Proofs.C03Oids (OidsDistinct StoreInv)
 open NodisVerif.Proofs.C03Refine (toReply execHash execSet dsHash dsSet hashFinding setFinding noHashFinding noSetFinding
   runHash runSet runHashT runSetT)
 
@@ -551,6 +553,174 @@ theorem smove_same_key (s : MState) (now : Int) (key member : Bytes) (st : AList
     IndexSorted (Api.smove s now key key member).1 :=
   C03Seq.smove_same_key s now key member st h hi hst hm
 
+/-! ### SMOVE between two different keys: value objects must not be shared
+
+  `Api.setVal` mutates the value *object* of a key; with the in-memory backend every index record and
+  every backend entry carrying the same object identity (`Meta.oid`) sees the new value. "No other key
+  changes" therefore holds in stores where no two live records share a value object:
+
+  `OidsDistinct s` (Proofs/C03Oids.lean): two different indexed keys never carry the same non-zero `oid`
+  (0 = a private copy decoded from Pebble); every `oid` in the index and in the backend is below
+  `s.nextId` (so a newly allocated one is new); an `oid` kept in a backend entry belongs to the key under
+  whose name the entry is filed, and entries with one `oid` are filed under one name (so a cold value
+  loaded back does not import a foreign identity).
+  `StoreInv s` = `IndexSorted s ∧ OidsDistinct s`.
+
+  The invariant holds in the empty store and is kept by SADD, SREM, SPOP (any choice), SMOVE, DEL,
+  SINTERSTORE / SUNIONSTORE / SDIFFSTORE, the set reads and the hash writers, on any keys at any time — hot,
+  cold or missing, of any type (`storeInv_initial`, `storeInv_preserved`, `storeInv_preserved_reads`,
+  `storeInv_preserved_hash`): every store reached from an empty one by those commands satisfies it.
+  REMARK: it is *not* claimed — outside these theorems — for RENAME / RENAMENX (the destination takes over the
+  source's value object on purpose), for `Store.reopen` (with the in-memory backend the rebuilt records share
+  their objects with whatever the backend holds) and for gc / flush (they file backend entries; needs the
+  backend-key invariants of C11 / C13). `smove_between_keys_needs_unshared_objects` shows what SMOVE does in
+  a store where two records share an object. -/
+
+/-- what the hypothesis says about the index: different keys, different value objects, all below `nextId` -/
+theorem oidsDistinct_index (s : MState) (h : OidsDistinct s) :
+    (∀ k k' m m', getMeta s k = some m → getMeta s k' = some m' → m.oid = m'.oid → m.oid ≠ 0 → k = k') ∧
+    (∀ k m, getMeta s k = some m → m.oid ≠ 0 → m.oid < s.nextId) :=
+  ⟨h.idxDistinct, h.idxBound⟩
+
+theorem storeInv_initial : StoreInv ({} : MState) := C03Oids.inv_empty
+
+/-- every set command that writes keeps the invariant, whatever its arguments and whatever the keys hold -/
+theorem storeInv_preserved (s : MState) (now : Int) (h : StoreInv s) :
+    (∀ key ms, StoreInv (Api.sadd s now key ms).1) ∧
+    (∀ key ms, StoreInv (Api.srem s now key ms).1) ∧
+    (∀ key count choice, StoreInv (Api.spop s now key count choice).1) ∧
+    (∀ src dst m, StoreInv (Api.smove s now src dst m).1) ∧
+    (∀ keys, StoreInv (Api.del s now keys).1) ∧
+    (∀ dst keys, StoreInv (Api.sstore Api.sinter s now dst keys).1) ∧
+    (∀ dst keys, StoreInv (Api.sstore Api.sunion s now dst keys).1) ∧
+    (∀ dst keys, StoreInv (Api.sstore Api.sdiff s now dst keys).1) :=
+  ⟨fun key ms => C03Oids.inv_sadd s now key ms h, fun key ms => C03Oids.inv_srem s now key ms h,
+   fun key count choice => C03Oids.inv_spop s now key count choice h,
+   fun src dst m => C03Oids.inv_smove s now src dst m h, fun keys => C03Oids.inv_del s now keys h,
+   fun dst keys => C03Oids.inv_sinterstore s now dst keys h, fun dst keys => C03Oids.inv_sunionstore s now dst keys h,
+   fun dst keys => C03Oids.inv_sdiffstore s now dst keys h⟩
+
+/-- the reads used by the set algebra keep it too (they count accesses and may load cold values) -/
+theorem storeInv_preserved_reads (s : MState) (now : Int) (h : StoreInv s) (keys : List Bytes) :
+    StoreInv (Api.sinter s now keys).1 ∧ StoreInv (Api.sunion s now keys).1 ∧ StoreInv (Api.sdiff s now keys).1 :=
+  ⟨C03Oids.inv_sinter s now keys h, C03Oids.inv_sunion s now keys h, C03Oids.inv_sdiff s now keys h⟩
+
+/-- every store built from the empty one by SADD commands (each with its own time, key and members) -/
+theorem storeInv_sadd_sequences (cmds : List (Int × Bytes × List Bytes)) :
+    StoreInv (cmds.foldl (fun s c => (Api.sadd s c.1 c.2.1 c.2.2).1) ({} : MState)) :=
+  C03Oids.inv_sadd_sequence cmds {} C03Oids.inv_empty
+
+/-- SMOVE src dst member with src ≠ dst, the source holding the set `st` ∋ member, the destination holding the
+    set `d` (`d = []` when the destination is missing), in a store without shared value objects:
+    * the reply is true (1);
+    * the destination now holds exactly its old members plus `member`;
+    * the source holds exactly its old members minus `member`, and ceases to exist when that is nothing;
+    * the record of every other key — value, deadline, everything — is what it was;
+    * the store invariant is kept. -/
+theorem smove_between_keys (s : MState) (now : Int) (src dst member : Bytes) (st d : AList Unit)
+    (h : HotSet s src st now) (hi : IndexSorted s) (ho : OidsDistinct s) (hne : src ≠ dst)
+    (hd : (Absent s dst now ∧ d = []) ∨ HotSet s dst d now)
+    (hst : AList.Sorted st) (hdst : AList.Sorted d) (hmem : DsSet.mem st member = true) :
+    (Api.smove s now src dst member).2 = .bool true ∧
+    (∃ d', HotSet (Api.smove s now src dst member).1 dst d' now ∧ AList.Sorted d' ∧
+      DsSet.mem d' = BSet.insert (DsSet.mem d) member) ∧
+    ((∀ x, DsSet.mem st x = true → x = member) → getMeta (Api.smove s now src dst member).1 src = none) ∧
+    ((∃ x, DsSet.mem st x = true ∧ x ≠ member) →
+      ∃ st', HotSet (Api.smove s now src dst member).1 src st' now ∧ AList.Sorted st' ∧
+        DsSet.mem st' = BSet.remove (DsSet.mem st) member) ∧
+    (∀ k, k ≠ src → k ≠ dst → getMeta (Api.smove s now src dst member).1 k = getMeta s k) ∧
+    IndexSorted (Api.smove s now src dst member).1 ∧ OidsDistinct (Api.smove s now src dst member).1 :=
+  C03Oids.smove_between_spec s now src dst member st d h hi ho hne hd hst hdst hmem
+
+/-- in particular every other key is classified as before, with the same value -/
+theorem smove_between_keys_others (s : MState) (now : Int) (src dst member : Bytes) (st d : AList Unit)
+    (h : HotSet s src st now) (hi : IndexSorted s) (ho : OidsDistinct s) (hne : src ≠ dst)
+    (hd : (Absent s dst now ∧ d = []) ∨ HotSet s dst d now)
+    (hst : AList.Sorted st) (hdst : AList.Sorted d) (hmem : DsSet.mem st member = true)
+    (k : Bytes) (hks : k ≠ src) (hkd : k ≠ dst) :
+    (∀ v, Hot s k v now ↔ Hot (Api.smove s now src dst member).1 k v now) ∧
+    (Absent s k now ↔ Absent (Api.smove s now src dst member).1 k now) := by
+  have e := (smove_between_keys s now src dst member st d h hi ho hne hd hst hdst hmem).2.2.2.2.1 k hks hkd
+  exact ⟨fun v => ⟨C03Oids.hot_of_getMeta e, C03Oids.hot_of_getMeta e.symm⟩,
+    ⟨C03Oids.absent_of_getMeta e, C03Oids.absent_of_getMeta e.symm⟩⟩
+
+/-- commands on one key and the other keys: in a store without shared value objects every single-key writer of
+    this family (whatever its arguments, whatever `key` holds — hot, cold, missing, of another type) leaves the
+    record of every other key exactly as it was -/
+theorem writers_leave_other_keys (s : MState) (now : Int) (key k : Bytes) (h : StoreInv s) (hk : k ≠ key) :
+    (∀ ms, getMeta (Api.sadd s now key ms).1 k = getMeta s k) ∧
+    (∀ ms, getMeta (Api.srem s now key ms).1 k = getMeta s k) ∧
+    (∀ count choice, getMeta (Api.spop s now key count choice).1 k = getMeta s k) ∧
+    (∀ f v, getMeta (Api.hset s now key f v).1 k = getMeta s k) ∧
+    (∀ f v, getMeta (Api.hsetnx s now key f v).1 k = getMeta s k) ∧
+    (∀ pairs, getMeta (Api.hmset s now key pairs).1 k = getMeta s k) ∧
+    (∀ fs, getMeta (Api.hdel s now key fs).1 k = getMeta s k) ∧
+    (∀ f delta, getMeta (Api.hincrby s now key f delta).1 k = getMeta s k) :=
+  ⟨fun ms => (C03Oids.step_sadd s now key ms h).2 k hk, fun ms => (C03Oids.step_srem s now key ms h).2 k hk,
+   fun count choice => (C03Oids.step_spop s now key count choice h).2 k hk,
+   fun f v => (C03Oids.step_hset s now key f v h).2 k hk, fun f v => (C03Oids.step_hsetnx s now key f v h).2 k hk,
+   fun pairs => (C03Oids.step_hmset s now key pairs h).2 k hk, fun fs => (C03Oids.step_hdel s now key fs h).2 k hk,
+   fun f delta => (C03Oids.step_hincrby s now key f delta h).2 k hk⟩
+
+/-- the hash writers keep the invariant too -/
+theorem storeInv_preserved_hash (s : MState) (now : Int) (key : Bytes) (h : StoreInv s) :
+    (∀ f v, StoreInv (Api.hset s now key f v).1) ∧ (∀ f v, StoreInv (Api.hsetnx s now key f v).1) ∧
+    (∀ pairs, StoreInv (Api.hmset s now key pairs).1) ∧ (∀ fs, StoreInv (Api.hdel s now key fs).1) ∧
+    (∀ f delta, StoreInv (Api.hincrby s now key f delta).1) :=
+  ⟨fun f v => C03Oids.inv_hset s now key f v h, fun f v => C03Oids.inv_hsetnx s now key f v h,
+   fun pairs => C03Oids.inv_hmset s now key pairs h, fun fs => C03Oids.inv_hdel s now key fs h,
+   fun f delta => C03Oids.inv_hincrby s now key f delta h⟩
+
+/-- the representation relations of section F (`SetRel` / `HashRel`: the store represents a collection under a
+    key) only look at the key's own record — so, with `writers_leave_other_keys`, a command on another key in
+    between does not disturb a per-key command sequence -/
+theorem relations_depend_on_own_record (s s' : MState) (key : Bytes) (now : Int)
+    (e : getMeta s' key = getMeta s key) :
+    (∀ st, SetRel s key now st → SetRel s' key now st) ∧ (∀ hh, HashRel s key now hh → HashRel s' key now hh) :=
+  ⟨fun _ hr => ⟨hr.1, hr.2.imp (fun ⟨a, b⟩ => ⟨a, C03Oids.absent_of_getMeta e b⟩) (fun ⟨a, b⟩ => ⟨a, C03Oids.hot_of_getMeta e b⟩)⟩,
+   fun _ hr => ⟨hr.1, hr.2.imp (fun ⟨a, b⟩ => ⟨a, C03Oids.absent_of_getMeta e b⟩) (fun ⟨a, b⟩ => ⟨a, C03Oids.hot_of_getMeta e b⟩)⟩⟩
+
+/-- non-vacuity: "a" = {[1], [2]} and "b" = {[3]} built by two SADD commands on the empty store (times 0 and 7);
+    at time 9 SMOVE a b [1] and SMOVE a m [1] ("m" missing) satisfy every hypothesis -/
+def twoSets : MState := (Api.sadd (Api.sadd {} 0 [97] [[1], [2]]).1 7 [98] [[3]]).1
+
+example : HotSet twoSets [97] [([1], ()), ([2], ())] 9 := ⟨_, rfl, by decide, by decide, rfl⟩
+example : HotSet twoSets [98] [([3], ())] 9 := ⟨_, rfl, by decide, by decide, rfl⟩
+theorem twoSets_inv : StoreInv twoSets := storeInv_sadd_sequences [(0, [97], [[1], [2]]), (7, [98], [[3]])]
+example : IndexSorted twoSets ∧ OidsDistinct twoSets := twoSets_inv
+example : ([97] : Bytes) ≠ [98] := by decide
+example : (Absent twoSets [109] 9 ∧ ([] : AList Unit) = []) ∨ HotSet twoSets [109] [] 9 :=
+  Or.inl ⟨(fun m hm => by
+    have : Store.getMeta twoSets [109] = none := by rfl
+    rw [this] at hm; cases hm), rfl⟩
+example : AList.Sorted ([([1], ()), ([2], ())] : AList Unit) ∧ AList.Sorted ([([3], ())] : AList Unit) ∧
+    DsSet.mem [([1], ()), ([2], ())] [1] = true := by
+  simp [AList.Sorted, Bytes.lt, DsSet.mem, AList.contains, AList.get?]
+/-- and the conclusion on it, computed: "a" = {[2]}, "b" = {[1], [3]} -/
+example : (Api.smove twoSets 9 [97] [98] [1]).2 = .bool true ∧
+    valOf (Api.smove twoSets 9 [97] [98] [1]).1 [97] = some (.set [([2], ())]) ∧
+    valOf (Api.smove twoSets 9 [97] [98] [1]).1 [98] = some (.set [([1], ()), ([3], ())]) :=
+  ⟨by rfl, by decide, by decide⟩
+
+/-- why the hypothesis is there: a store in which "a" and "c" share one value object (what the doc comment of
+    `Api.setVal` says a reopen with the in-memory backend can produce). SMOVE a b [1] takes [1] out of "c" as well. -/
+def sharedStore : MState :=
+  { index := [ ([97], { exp := 0, value := some (.set [([1], ()), ([2], ())]), state := 1, oid := 5 }),
+               ([99], { exp := 0, value := some (.set [([1], ()), ([2], ())]), state := 1, oid := 5 }) ], nextId := 6 }
+
+theorem smove_between_keys_needs_unshared_objects :
+    HotSet sharedStore [97] [([1], ()), ([2], ())] 0 ∧ HotSet sharedStore [99] [([1], ()), ([2], ())] 0 ∧
+    Absent sharedStore [98] 0 ∧ IndexSorted sharedStore ∧ ¬ OidsDistinct sharedStore ∧
+    valOf (Api.smove sharedStore 0 [97] [98] [1]).1 [99] = some (.set [([2], ())]) := by
+  refine ⟨⟨_, rfl, by decide, by decide, rfl⟩, ⟨_, rfl, by decide, by decide, rfl⟩, ?_, ?_, ?_, by decide⟩
+  · intro m hm
+    have : Store.getMeta sharedStore [98] = none := by rfl
+    rw [this] at hm; cases hm
+  · simp [IndexSorted, sharedStore, AList.Sorted, Bytes.lt]
+  · intro h
+    have := h.idxDistinct [97] [99] _ _ rfl rfl rfl (by decide)
+    exact absurd this (by decide)
+
 end D
 
 
@@ -759,18 +929,25 @@ theorem spop_negative_count_finding (s : MState) (now : Int) (key : Bytes) (st :
 end F
 
 /- UNPROVED (not attempted / out of reach in this round):
-   * SMOVE between two *different* keys with the member present, beyond `empty_ceases_smove` (proved:
-     non-member / missing source / source = destination / source ceases to exist / destination of
-     another type: the call fails and nothing changes). The remaining
-     statement (destination gains the member, source keeps the rest) is not proved: `Api.setVal`
-     propagates a new value to every index record sharing the value object's identity (`oid`), so it
-     needs a store-level invariant "distinct live keys have distinct oids, all below nextId", which is a
-     store property (broken on purpose after `reopen` with the in-memory backend) outside C03's models.
+   * SMOVE between two different keys with the member present is now proved (`smove_between_keys`: destination
+     gains the member, source keeps the rest or ceases to exist, reply 1, every other record untouched), under the
+     store invariant `OidsDistinct` (no two live records share a value object; Proofs/C03Oids.lean), which holds
+     in the empty store and is kept by SADD / SREM / SPOP / SMOVE / DEL / S*STORE (`storeInv_preserved`).
+     Still open there: (a) source or destination *cold* (value to be loaded from the backend) — `Hot` does not
+     cover it, see the last item (the invariant itself *is* kept on the cold path); (b) the invariant is not
+     claimed for RENAME / RENAMENX (they hand the source's value object to the destination on purpose), for
+     `Store.reopen` with the in-memory backend, for gc / flush (they file backend entries under the key's own
+     name: needs injectivity of `Codec.encodeKey`, Proofs/C10Base.lean, and the backend invariants of C11 / C13)
+     and for the string / list / zset writers (not needed for C03). `smove_between_keys_needs_unshared_objects`
+     shows SMOVE changing a third key in a store where two records share an object.
    * HINCRBYFLOAT: `Api.hincrbyfloat` is only modelled on the integer-valued fragment of float
      arithmetic (`.unsupported` elsewhere, and those branches leave a freshly created empty hash behind);
      no statement is made about it. HSCAN / SSCAN are not in C03's command list.
    * The sequence theorems are per key (one hash key or one set key at a time). Interleavings with commands
-     on *other* keys are not covered: they need the same oid-sharing invariant as SMOVE.
+     on *other* keys are not stated as sequence theorems; the two ingredients are proved: under `StoreInv` a
+     single-key writer leaves every other record as it was (`writers_leave_other_keys`) and keeps `StoreInv`,
+     and `SetRel` / `HashRel` read the key's own record only (`relations_depend_on_own_record`). Not covered:
+     reads of other keys (they bump the other key's access counter only) and S*STORE / SMOVE in between.
    * Cold keys (value not in memory, to be loaded from the backend) are not covered by `Hot` / `HashRel`:
      that path goes through the codec round trip (property C14) and the backend model. -/
 
